@@ -112,6 +112,7 @@ func c12Body(o c12Opts) func() {
 		var tk *vrt.Thread
 		if o.kill != 0 {
 			tk = vrt.GoProc("fault", 0, func() {
+				vrt.AnyMoment()
 				// the peer process stops here (this thread can be scheduled at any point of the exchange)
 				vrt.KillProc(o.kill)
 				if o.closed {
